@@ -25,6 +25,8 @@
 (*   (blank)                                                               *)
 (*   Q              "> [q](2)"                 a quote holding one reference *)
 (*   (blank)                                                               *)
+(*   W              "w [[2]] x [[2|s]] y"      wiki links                  *)
+(*   (blank)                                                               *)
 (*   TB             "| h | k |" "|---|---|" "| c | [c](2) |"   a table     *)
 (*   (blank)                                                               *)
 (*   Z, Y           "tail [z](2)" "end [y](2)"  the last paragraph, with   *)
@@ -55,7 +57,9 @@ LastLine(P) == ItemLine(P)
 \* block reference, a table with a link in a cell, and a last paragraph of two lines
 JLineW(P, wrap) == ItemLineW(P, wrap) + 1
 QuoteLineW(P, wrap) == JLineW(P, wrap) + 2
-TableLineW(P, wrap) == QuoteLineW(P, wrap) + 2
+\* a paragraph with a wiki link and a piped wiki link: "w [[2]] x [[2|s]] y"
+WikiLineW(P, wrap) == QuoteLineW(P, wrap) + 2
+TableLineW(P, wrap) == WikiLineW(P, wrap) + 2
 CellLineW(P, wrap) == TableLineW(P, wrap) + 2
 ZLineW(P, wrap) == CellLineW(P, wrap) + 2
 YLineW(P, wrap) == ZLineW(P, wrap) + 1
